@@ -20,6 +20,7 @@ use pgp::crypto::sym::SymmetricKeyAlgorithm;
 use pgp::packet::DataMode;
 use pgp::types::{CompressionAlgorithm, KeyVersion, Password};
 use rand::{Rng, SeedableRng};
+use sha2::Digest;
 use rand_chacha::ChaCha8Rng;
 
 use crate::ctx::{guarded, hx, hx_list, Ctx};
@@ -43,6 +44,22 @@ struct Cfg {
     enc: Enc,
     armor: bool,
     chunk: u32,
+    algs: Algs,
+}
+
+/// the algorithms a configuration names (each selects an arm of a per-algorithm dispatch)
+#[derive(Clone, Copy, Debug)]
+struct Algs {
+    sym: SymmetricKeyAlgorithm,
+    aead: AeadAlgorithm,
+    cs: u8,
+    hash: HashAlgorithm,
+}
+
+const DEF: Algs = Algs { sym: SymmetricKeyAlgorithm::AES128, aead: AeadAlgorithm::Ocb, cs: 0, hash: HashAlgorithm::Sha256 };
+
+fn session_key(a: &Algs) -> Vec<u8> {
+    vec![0x42; a.sym.key_size()]
 }
 
 const SESSION_KEY: [u8; 16] = [0x42; 16];
@@ -61,7 +78,7 @@ fn build<R: Read, W: Write>(cfg: &Cfg, key: &SignedSecretKey, src: R, mut sink: 
                 b.compression(c);
             }
             if cfg.sign {
-                b.sign(&**key, Password::empty(), HashAlgorithm::Sha256);
+                b.sign(&**key, Password::empty(), cfg.algs.hash);
             }
             if cfg.armor {
                 b.to_armored_writer(&mut rng, ArmorOptions::default(), &mut sink).map_err(|e| e.to_string())
@@ -73,13 +90,14 @@ fn build<R: Read, W: Write>(cfg: &Cfg, key: &SignedSecretKey, src: R, mut sink: 
     match cfg.enc {
         Enc::None => finish!(MessageBuilder::from_reader("", src)),
         Enc::V1 => {
-            let mut b = MessageBuilder::from_reader("", src).seipd_v1(&mut rng, SymmetricKeyAlgorithm::AES128);
-            b.set_session_key(SESSION_KEY.to_vec().into()).map_err(|e| e.to_string())?;
+            let mut b = MessageBuilder::from_reader("", src).seipd_v1(&mut rng, cfg.algs.sym);
+            b.set_session_key(session_key(&cfg.algs).into()).map_err(|e| e.to_string())?;
             finish!(b)
         }
         Enc::V2 => {
-            let mut b = MessageBuilder::from_reader("", src).seipd_v2(&mut rng, SymmetricKeyAlgorithm::AES128, AeadAlgorithm::Ocb, ChunkSize::C64B);
-            b.set_session_key(SESSION_KEY.to_vec().into()).map_err(|e| e.to_string())?;
+            let cs = ChunkSize::try_from(cfg.algs.cs).map_err(|e| e.to_string())?;
+            let mut b = MessageBuilder::from_reader("", src).seipd_v2(&mut rng, cfg.algs.sym, cfg.algs.aead, cs);
+            b.set_session_key(session_key(&cfg.algs).into()).map_err(|e| e.to_string())?;
             finish!(b)
         }
     }
@@ -95,10 +113,10 @@ fn read_back<R: BufRead + std::fmt::Debug + Send>(cfg: &Cfg, key: &SignedSecretK
     let msg = match cfg.enc {
         Enc::None => msg,
         Enc::V1 => msg
-            .decrypt_with_session_key(PlainSessionKey::V3_4 { sym_alg: SymmetricKeyAlgorithm::AES128, key: SESSION_KEY.to_vec().into() })
+            .decrypt_with_session_key(PlainSessionKey::V3_4 { sym_alg: cfg.algs.sym, key: session_key(&cfg.algs).into() })
             .map_err(|e| e.to_string())?,
         Enc::V2 => msg
-            .decrypt_with_session_key(PlainSessionKey::V6 { key: SESSION_KEY.to_vec().into() })
+            .decrypt_with_session_key(PlainSessionKey::V6 { key: session_key(&cfg.algs).into() })
             .map_err(|e| e.to_string())?,
     };
     let mut msg = if msg.is_compressed() { msg.decompress().map_err(|e| e.to_string())? } else { msg };
@@ -196,15 +214,15 @@ fn schedules(rng: &mut ChaCha8Rng, n: usize, chunk: usize) -> Vec<Vec<usize>> {
 fn run_builder(ctx: &mut Ctx, key: &SignedSecretKey) {
     let mut rng = ChaCha8Rng::seed_from_u64(ctx.seed ^ 0xC09);
     let cfgs = [
-        Cfg { utf8: false, compression: None, sign: false, enc: Enc::None, armor: false, chunk: 512 },
-        Cfg { utf8: true, compression: None, sign: false, enc: Enc::None, armor: false, chunk: 512 },
-        Cfg { utf8: false, compression: Some(CompressionAlgorithm::ZLIB), sign: false, enc: Enc::None, armor: false, chunk: 512 },
-        Cfg { utf8: false, compression: None, sign: false, enc: Enc::V1, armor: false, chunk: 512 },
-        Cfg { utf8: false, compression: None, sign: false, enc: Enc::V2, armor: false, chunk: 1024 },
-        Cfg { utf8: false, compression: None, sign: false, enc: Enc::None, armor: true, chunk: 512 },
-        Cfg { utf8: false, compression: Some(CompressionAlgorithm::ZIP), sign: false, enc: Enc::V2, armor: true, chunk: 512 },
-        Cfg { utf8: false, compression: None, sign: true, enc: Enc::None, armor: false, chunk: 512 },
-        Cfg { utf8: true, compression: Some(CompressionAlgorithm::ZIP), sign: true, enc: Enc::V1, armor: true, chunk: 512 },
+        Cfg { utf8: false, compression: None, sign: false, enc: Enc::None, armor: false, chunk: 512, algs: DEF },
+        Cfg { utf8: true, compression: None, sign: false, enc: Enc::None, armor: false, chunk: 512, algs: DEF },
+        Cfg { utf8: false, compression: Some(CompressionAlgorithm::ZLIB), sign: false, enc: Enc::None, armor: false, chunk: 512, algs: DEF },
+        Cfg { utf8: false, compression: None, sign: false, enc: Enc::V1, armor: false, chunk: 512, algs: DEF },
+        Cfg { utf8: false, compression: None, sign: false, enc: Enc::V2, armor: false, chunk: 1024, algs: DEF },
+        Cfg { utf8: false, compression: None, sign: false, enc: Enc::None, armor: true, chunk: 512, algs: DEF },
+        Cfg { utf8: false, compression: Some(CompressionAlgorithm::ZIP), sign: false, enc: Enc::V2, armor: true, chunk: 512, algs: DEF },
+        Cfg { utf8: false, compression: None, sign: true, enc: Enc::None, armor: false, chunk: 512, algs: DEF },
+        Cfg { utf8: true, compression: Some(CompressionAlgorithm::ZIP), sign: true, enc: Enc::V1, armor: true, chunk: 512, algs: DEF },
     ];
     let sizes: Vec<usize> = if ctx.thorough() { vec![0, 1, 5, 505, 506, 507, 511, 512, 513, 1018, 1024, 1030, 1536, 3000] } else { vec![0, 1, 506, 512, 1018, 1600] };
     for (ci, cfg) in cfgs.iter().enumerate() {
@@ -464,11 +482,11 @@ fn now_secs() -> u64 {
 fn run_reader(ctx: &mut Ctx, key: &SignedSecretKey) {
     let mut rng = ChaCha8Rng::seed_from_u64(ctx.seed ^ 0xC091);
     let cfgs = [
-        Cfg { utf8: false, compression: None, sign: false, enc: Enc::None, armor: false, chunk: 512 },
-        Cfg { utf8: false, compression: Some(CompressionAlgorithm::ZLIB), sign: true, enc: Enc::None, armor: false, chunk: 512 },
-        Cfg { utf8: false, compression: None, sign: true, enc: Enc::V1, armor: false, chunk: 512 },
-        Cfg { utf8: false, compression: None, sign: true, enc: Enc::V2, armor: true, chunk: 512 },
-        Cfg { utf8: true, compression: Some(CompressionAlgorithm::ZIP), sign: false, enc: Enc::V2, armor: false, chunk: 512 },
+        Cfg { utf8: false, compression: None, sign: false, enc: Enc::None, armor: false, chunk: 512, algs: DEF },
+        Cfg { utf8: false, compression: Some(CompressionAlgorithm::ZLIB), sign: true, enc: Enc::None, armor: false, chunk: 512, algs: DEF },
+        Cfg { utf8: false, compression: None, sign: true, enc: Enc::V1, armor: false, chunk: 512, algs: DEF },
+        Cfg { utf8: false, compression: None, sign: true, enc: Enc::V2, armor: true, chunk: 512, algs: DEF },
+        Cfg { utf8: true, compression: Some(CompressionAlgorithm::ZIP), sign: false, enc: Enc::V2, armor: false, chunk: 512, algs: DEF },
     ];
     // (payloads beyond the 8 KiB internal buffers of the readers as well, read with sizes that do not
     //  divide 8192: a reader that tops up a partly consumed buffer meets them)
@@ -556,6 +574,108 @@ fn run_reader(ctx: &mut Ctx, key: &SignedSecretKey) {
     }
 }
 
+/// every cipher / AEAD mode / chunk size / hash / compression the builder and the reader dispatch
+/// on: builder output independent of the source schedule, reading independent of source schedule
+/// and consumer pattern, faults surface (oracle only)
+fn run_alg_sweep(ctx: &mut Ctx, key: &SignedSecretKey) {
+    use SymmetricKeyAlgorithm as S;
+    let mut rng = ChaCha8Rng::seed_from_u64(ctx.seed ^ 0xC09A);
+    let base = Cfg { utf8: false, compression: None, sign: false, enc: Enc::None, armor: false, chunk: 512, algs: DEF };
+    let mut cfgs: Vec<Cfg> = Vec::new();
+    for sym in [S::IDEA, S::TripleDES, S::CAST5, S::Blowfish, S::AES192, S::AES256, S::Twofish, S::Camellia128, S::Camellia192, S::Camellia256] {
+        cfgs.push(Cfg { enc: Enc::V1, algs: Algs { sym, ..DEF }, ..base });
+    }
+    for sym in [S::AES128, S::AES192, S::AES256] {
+        for aead in [AeadAlgorithm::Eax, AeadAlgorithm::Ocb, AeadAlgorithm::Gcm] {
+            for cs in [0u8, 3, 6, 10] {
+                if sym == S::AES128 && aead == AeadAlgorithm::Ocb && cs == 0 {
+                    continue;
+                }
+                cfgs.push(Cfg { enc: Enc::V2, algs: Algs { sym, aead, cs, ..DEF }, ..base });
+            }
+        }
+    }
+    for hash in [HashAlgorithm::Sha224, HashAlgorithm::Sha384, HashAlgorithm::Sha512, HashAlgorithm::Sha3_256, HashAlgorithm::Sha3_512] {
+        cfgs.push(Cfg { sign: true, algs: Algs { hash, ..DEF }, ..base });
+        cfgs.push(Cfg { sign: true, utf8: true, algs: Algs { hash, ..DEF }, ..base });
+    }
+    for c in [CompressionAlgorithm::ZIP, CompressionAlgorithm::ZLIB, CompressionAlgorithm::BZip2, CompressionAlgorithm::Uncompressed] {
+        cfgs.push(Cfg { compression: Some(c), ..base });
+        cfgs.push(Cfg { compression: Some(c), enc: Enc::V1, algs: Algs { sym: S::AES256, ..DEF }, ..base });
+    }
+    let sizes: Vec<usize> = if ctx.thorough() { vec![0, 1, 700, 1100, 9000, 20011, 70001] } else { vec![0, 1100, 20011] };
+    let pats = [Pattern::ReadToEnd, Pattern::Fixed(1), Pattern::Fixed(7), Pattern::Fixed(8192), Pattern::ZeroMix(50), Pattern::BufRead(13), Pattern::Fixed(4095), Pattern::Fixed(1000)];
+    for (ci, cfg) in cfgs.iter().enumerate() {
+        for (ni, &n) in sizes.iter().enumerate() {
+            let data = payload(&mut rng, cfg.utf8, n);
+            let site = format!("MessageBuilder / Message reader {cfg:?}");
+            let inp = format!("n={n} data_sha256={}", hx(&sha2::Sha256::digest(&data)));
+            let mut reference = Vec::new();
+            let r0 = guarded(|| build(cfg, key, &data[..], &mut reference, 11));
+            if !matches!(r0, Ok(Ok(()))) {
+                // (a configuration the builder refuses is not this property's subject)
+                ctx.stat(&format!("sweep:builder_refuses:{:?}:{:?}:{:?}", cfg.algs.sym, cfg.algs.hash, cfg.compression));
+                continue;
+            }
+            // builder: source schedules (unsigned: bytewise; signed: through the reader)
+            for (si, s) in [vec![1usize; 1 << 17], vec![7, 1, 500, 3], vec![8192], vec![511, 513, 1]].iter().enumerate() {
+                if (n > 5000 && si == 0 && !ctx.thorough()) || (si + ci + ni) % 2 == 1 && !ctx.thorough() {
+                    continue;
+                }
+                let mut out = Vec::new();
+                let r = guarded(|| build(cfg, key, ScheduledReader::new(&data, s), &mut out, 11));
+                let same = if cfg.sign {
+                    matches!(guarded(|| read_back(cfg, key, &out[..], Pattern::ReadToEnd)), Ok(Ok((p, v))) if p == data && v)
+                } else {
+                    out == reference
+                };
+                ctx.oracle("output_independent_of_source_schedule", &site, &format!("{inp} schedule#{si}"), matches!(r, Ok(Ok(()))) && same, "output differs from whole-slice source");
+                ctx.stat("sweep:builder_schedule");
+            }
+            // reader: schedules x consumer patterns
+            for (k, &cap) in [1usize, 3, 64, 8192, 100, 8191].iter().enumerate() {
+                if (k + ci + ni) % 2 == 0 && !ctx.thorough() {
+                    continue;
+                }
+                if cap == 1 && n > 5000 && !ctx.thorough() {
+                    continue;
+                }
+                let sched: Vec<usize> = match k { 0 => vec![1; 1 << 17], 1 => vec![2, 1, 3], 2 => vec![511, 1, 2, 510], _ => vec![] };
+                let pat = pats[(k + ci) % pats.len()];
+                let r = guarded(|| read_back(cfg, key, BufReader::with_capacity(cap, ScheduledReader::new(&reference, &sched)), pat));
+                let ok = matches!(&r, Ok(Ok((p, v))) if *p == data && *v);
+                ctx.oracle("read_independent_of_schedule", &site, &format!("{inp} cap={cap} pat={pat:?}"), ok, &format!("{:?}", r.as_ref().map(|x| x.as_ref().map(|(p, v)| (p.len(), *v)))));
+                ctx.stat("sweep:reader_schedule");
+            }
+            // faults: a few read calls of the builder's source and of the reader's source
+            let mut probe = ScheduledReader::new(&data, &[509; 4096]);
+            let mut sink = Vec::new();
+            let _ = guarded(|| build(cfg, key, &mut probe, &mut sink, 11));
+            let calls = probe.calls_made;
+            for k in [0usize, 1, calls / 2, calls.saturating_sub(2), calls.saturating_sub(1)] {
+                if k >= calls {
+                    continue;
+                }
+                let mut out = Vec::new();
+                let r = guarded(|| build(cfg, key, ScheduledReader::new(&data, &[509; 4096]).with_fault(k), &mut out, 11));
+                ctx.oracle("source_fault_surfaces", &site, &format!("{inp} fault@read#{k}/{calls}"), matches!(r, Ok(Err(_))), &format!("{:?} out_len={}", r.as_ref().map(|x| x.is_ok()), out.len()));
+                ctx.stat("sweep:builder_fault");
+            }
+            let mut probe = ScheduledReader::new(&reference, &[]);
+            let _ = guarded(|| read_back(cfg, key, BufReader::with_capacity(512, &mut probe), Pattern::ReadToEnd).is_ok());
+            let calls = probe.calls_made;
+            for k in [0usize, 1, calls / 3, calls / 2, calls.saturating_sub(3)] {
+                if k + 2 >= calls {
+                    continue;
+                }
+                let r = guarded(|| read_back(cfg, key, BufReader::with_capacity(512, ScheduledReader::new(&reference, &[]).with_fault(k)), Pattern::ReadToEnd));
+                ctx.oracle("reader_source_fault_surfaces", &site, &format!("{inp} fault@read#{k}/{calls}"), matches!(r, Ok(Err(_))), &format!("{:?}", r.as_ref().map(|x| x.as_ref().map(|(p, v)| (p.len(), *v)))));
+                ctx.stat("sweep:reader_fault");
+            }
+        }
+    }
+}
+
 fn run_model_ops(ctx: &mut Ctx) {
     // fill_buffer: exhaustive chunkings of short inputs x requested sizes
     for n in 0..=6usize {
@@ -637,6 +757,7 @@ pub fn run(ctx: &mut Ctx) {
     let key = keys::ed25519_x25519(ChaCha8Rng::seed_from_u64(99), KeyVersion::V4);
     run_model_ops(ctx);
     run_enc_poll(ctx);
+    run_alg_sweep(ctx, &key);
     // thorough: repeated with fresh payloads, schedules and fault positions
     let rounds = ctx.pick(1u64, 160u64);
     let base = ctx.seed;
